@@ -3,6 +3,7 @@ zip, race_ok), destructor agreement, hand-off on completion, who-may-touch audit
 from .. import scan, families
 from ..families import short, self_path, sub_struct_pos
 from ..sites import is_agg, peel_type
+from . import flow
 from ..terms import simple_name, subterms
 from . import common, prims
 
@@ -229,9 +230,10 @@ def rule_trans(ctx, M, u):
 def completion_returns(bi, wrap=None):
     """blocks assigning `_0 = Poll::Ready(..)`; with the payload operand term."""
     out = []
-    for b, i, rv in bi.assigns_to_return():
-        if is_agg(rv, "Poll", "Ready"):
-            out.append((b, bi.T.of_operand(rv["fields"][0])))
+    # every value that may flow into _0, at the block that builds it (directly, or through `let ret = ..; ret`)
+    for b, kind, payload, t in flow.returned_values(bi):
+        if t[0] == "agg" and t[1] == ("Poll", "Ready") and t[2]:
+            out.append((b, t[2][0]))
     return out
 
 
